@@ -571,10 +571,10 @@ fn plan_files(rng: &mut Rng, seeds: &BTreeMap<String, Vec<u8>>, lays: &BTreeMap<
         let mut bounds: Vec<usize> = lay.fields.iter().map(|f| f.start).collect();
         bounds.sort(); bounds.dedup();
         for (i, b) in bounds.iter().enumerate() {
-            if s != "rich" && i % 4 != 0 { continue; }
+            if s != "rich" && i % 8 != 0 { continue; }
             v.push(FileCase { base: s.clone(), ops: vec![Op::Trunc(*b)], label: "trunc".into() });
-            if i % 3 == 0 && *b > 0 { v.push(FileCase { base: s.clone(), ops: vec![Op::Trunc(*b - 1)], label: "trunc-1".into() }); }
-            if i % 5 == 0 { v.push(FileCase { base: s.clone(), ops: vec![Op::Trunc(*b + 1)], label: "trunc+1".into() }); }
+            if i % 4 == 0 && *b > 0 { v.push(FileCase { base: s.clone(), ops: vec![Op::Trunc(*b - 1)], label: "trunc-1".into() }); }
+            if i % 6 == 0 { v.push(FileCase { base: s.clone(), ops: vec![Op::Trunc(*b + 1)], label: "trunc+1".into() }); }
         }
     }
     let fixed = v.len();
@@ -981,7 +981,9 @@ fn finish_case(cx: &mut Cx, dec: &str, args: &[String], label: &str, model: Opti
     cx.sum.branch(&format!("dec.{dec}.{}", if is_crash(&ci) { ci.clone() } else { class.replace(|c: char| c.is_ascii_digit(), "") }));
     cx.sum.case(&format!("{dec}|{}|{ci}", b3short(args.join(" ").as_bytes())), !ci.starts_with("err truncated"), || json!({"dec": dec, "label": label, "impl": ci}));
     if is_crash(&ci) {
-        let sig = format!("decoder-{dec}-{}", kebab(&imp));
+        let mut it = imp.splitn(2, ' ');
+        let (cl, det) = (it.next().unwrap_or("").to_string(), it.next().unwrap_or("").to_string());
+        let sig = format!("decoder-{dec}-{}", crash_signature(&ApiOutcome { api: dec.to_string(), class: cl, detail: det }));
         let agrees = cm.as_deref() == Some(ci.as_str());
         if agrees && cx.known.iter().any(|k| *k == sig) { cx.sum.known_finding(&sig, &imp, case.clone()); }
         else { cx.sum.oracle_violation(&sig, &format!("{dec} [{label}]: {imp} (model: {})", model.clone().unwrap_or_else(|| "-".into())), case.clone()); }
@@ -1554,7 +1556,7 @@ fn main() {
         paths.insert(shape.to_string(), p);
     }
     sum.notes.push(format!("seeds built in {:.1}s: {}", t0.elapsed().as_secs_f64(), seeds.iter().map(|(k, v)| format!("{k}={}B", v.len())).collect::<Vec<_>>().join(" ")));
-    let jobs: usize = args.extra.get("jobs").and_then(|s| s.parse().ok()).unwrap_or(6);
+    let jobs: usize = args.extra.get("jobs").and_then(|s| s.parse().ok()).unwrap_or(8);
 
     if args.mode == "replay" {
         let case = load_replay(args.replay_file.as_ref().expect("replay file"));
@@ -1622,7 +1624,7 @@ fn main() {
         cx.sum.notes.push(format!("part A: {} decoder cases in {:.1}s", cx.sum.evaluations, secs));
     }
     // ---------------------------------------------------------------- Part B
-    let nfiles = args.extra.get("files").and_then(|s| s.parse().ok()).unwrap_or(if args.thorough { 4000 } else { 330 });
+    let nfiles = args.extra.get("files").and_then(|s| s.parse().ok()).unwrap_or(if args.thorough { 4000 } else { 260 });
     let plan = plan_files(&mut rng.fork(), &seeds, &lays, nfiles);
     let tb = Instant::now();
     let next = Arc::new(AtomicUsize::new(0));
